@@ -86,6 +86,65 @@ theorem NOWRAP_le_one (split : Str → List Word) (text : Str) (W : Int) (c0 c1 
     (h : W ≤ 0) : (wrapLines split text W c0 c1 md).length ≤ 1 := by
   rw [NOWRAP split text W c0 c1 md h]; split <;> simp
 
+/-! ### The rendered lines (`wrap_paragraph`: indents put in front of the filled lines) -/
+
+theorem joinSp_length : ∀ (l : Line), (joinSp l).length = lineLen l
+  | [] => rfl
+  | [w] => rfl
+  | w :: v :: rest => by
+    simp only [joinSp, lineLen, List.length_append, List.length_cons]
+    rw [joinSp_length (v :: rest)]; omega
+
+theorem indented_of_bound (W : Nat) (i0 s0 : Str) (filled : List Line)
+    (hb : BoundFrom W i0.length s0.length filled) :
+    (addIndents i0 s0 false (filled.map joinSp)).length = filled.length ∧
+    (∀ L ∈ (addIndents i0 s0 false (filled.map joinSp)).head?,
+      ∃ l ∈ filled.head?, L = i0 ++ joinSp l ∧ (L.length ≤ W ∨ l.length = 1)) ∧
+    (∀ L ∈ (addIndents i0 s0 false (filled.map joinSp)).tail,
+      ∃ l ∈ filled.tail, L = s0 ++ joinSp l ∧ (L.length ≤ W ∨ l.length = 1)) := by
+  cases filled with
+  | nil => simp [addIndents]
+  | cons l rest =>
+    simp only [List.map_cons, addIndents, Bool.false_eq_true, if_false, List.length_cons, List.length_map,
+      List.head?_cons, Option.mem_def, Option.some.injEq, List.tail_cons, true_and]
+    refine ⟨?_, ?_⟩
+    · intro L hL
+      subst hL
+      refine ⟨l, rfl, rfl, ?_⟩
+      have := hb.1 l (by simp)
+      unfold LineOK at this
+      rcases this with h | h
+      · left; simp only [List.length_append, joinSp_length]; omega
+      · right; exact h
+    · intro L hL
+      obtain ⟨l', hl', rfl⟩ := List.mem_map.1 hL
+      obtain ⟨l'', hl'', rfl⟩ := List.mem_map.1 hl'
+      refine ⟨l'', hl'', rfl, ?_⟩
+      have := hb.2 l'' (by simpa using hl'')
+      unfold LineOK at this
+      rcases this with h | h
+      · left; simp only [List.length_append, joinSp_length]; omega
+      · right; exact h
+
+/-- INDENTED_LINES (the property's sentence "every line carries the configured first-line or continuation
+indent, and no wrapped line is longer than the width unless it cannot be shortened by breaking at a space"),
+on the text lines `wrap_paragraph` hands back: the first is `initial_indent ++ words`, every other one is
+`subsequent_indent ++ words`, and each is at most `W` characters long **as a string, indent included**, or
+consists of its indent and one single word. -/
+theorem INDENTED_LINES (W : Nat) (i0 s0 : Str) (md : Bool) (ws : List Word) :
+    (addIndents i0 s0 false ((fill W s0.length md i0.length ws).map joinSp)).length
+      = (fill W s0.length md i0.length ws).length ∧
+    (∀ L ∈ (addIndents i0 s0 false ((fill W s0.length md i0.length ws).map joinSp)).head?,
+      ∃ l ∈ (fill W s0.length md i0.length ws).head?, L = i0 ++ joinSp l ∧ (L.length ≤ W ∨ l.length = 1)) ∧
+    (∀ L ∈ (addIndents i0 s0 false ((fill W s0.length md i0.length ws).map joinSp)).tail,
+      ∃ l ∈ (fill W s0.length md i0.length ws).tail, L = s0 ++ joinSp l ∧ (L.length ≤ W ∨ l.length = 1)) :=
+  indented_of_bound W i0 s0 _ (BOUND W i0.length s0.length md ws)
+
+/-- non-vacuity: list-item indents, width 12. -/
+example : addIndents "- ".toList "  ".toList false
+    ((fill 12 2 true 2 ["aaaa".toList, "bbbb".toList, "cc".toList, "dddddddddddddd".toList]).map joinSp)
+    = ["- aaaa bbbb".toList, "  cc".toList, "  dddddddddddddd".toList] := by decide
+
 /-! ### Sentence mode (`line_wrap_by_sentence`) -/
 
 /-- True-column bound of a list of output lines: line 0 starts at `i0`, the others at `s0`. -/
